@@ -58,22 +58,30 @@ def processRec (s : State) (r : Rec) (now : Nat) (infl : Bool) : Except Err (Sta
   else step2 amount
 
 /-- the `EndBlocker` loop over the records read at the start of the block; returns the payouts `(record, amount)`
-of this block in order. A panic inside escapes the block (`none`). -/
-def endLoop (now : Nat) (infl : Bool) : List Rec → State → Option (State × List (Nat × Nat))
+of this block in order. A panic inside escapes the block (`none`). `ProcessUBIRecord` asks the distributor's
+`InflationPossible` for EVERY record: the gate reads the supply of the moment, which the payouts of this very block have
+raised. `room` is how much may still be minted before the gate closes (`none`: no year-start snapshot yet, the gate is
+open whatever the supply); a record is processed with the gate open iff what this block has minted so far is below it. -/
+def gateOpen (room : Option Nat) (minted : Nat) : Bool :=
+  match room with
+  | none => true
+  | some r => decide (minted < r)
+
+def endLoop (now : Nat) (room : Option Nat) (minted : Nat) : List Rec → State → Option (State × List (Nat × Nat))
   | [], s => some (s, [])
   | r :: rest, s =>
     if due r now then
-      match processRec s r now infl with
+      match processRec s r now (gateOpen room minted) with
       | .error .panic => none
-      | .error .err => endLoop now infl rest s
+      | .error .err => endLoop now room minted rest s
       | .ok (s', paid) =>
-        match endLoop now infl rest s' with
+        match endLoop now room (minted + paid) rest s' with
         | none => none
         | some (s'', l) => some (s'', if paid = 0 then l else (r.name, paid) :: l)
-    else endLoop now infl rest s
+    else endLoop now room minted rest s
 
-def endBlock (s : State) (now : Nat) (infl : Bool) : Except Err (State × List (Nat × Nat)) :=
-  match endLoop now infl s.recs s with
+def endBlock (s : State) (now : Nat) (room : Option Nat) : Except Err (State × List (Nat × Nat)) :=
+  match endLoop now room 0 s.recs s with
   | none => .error .panic
   | some r => .ok r
 
